@@ -5,6 +5,9 @@ import os, sys, subprocess, tempfile, json, time, hashlib, random
 VERIF = os.path.dirname(os.path.dirname(os.path.abspath(__file__)))
 REPO = os.environ.get('HIDC_REPO', '/repo')
 HIDMODEL = os.path.join(VERIF, 'lean', '.lake', 'build', 'bin', 'hidmodel')
+# the command line tool lifts CPython's int<->str digit limit (hidc/__main__.py); the harness drives the same code in-process
+if hasattr(sys, 'set_int_max_str_digits'):
+    sys.set_int_max_str_digits(0)
 if sys.path[0] != REPO:
     sys.path.insert(0, REPO)
 
